@@ -1,6 +1,7 @@
 //! Hooks for an out-of-crate verification harness. Compiled only with the cargo feature `verif`
 //! (off by default); thin public wrappers around crate-private items, adding no behaviour.
 pub mod addrs;
+pub mod entry;
 pub mod fetch;
 pub mod handshake;
 pub mod mux;
